@@ -52,7 +52,7 @@ int64_t KillSwapUsage__rankForKilling__lambda_sortDescWithKillPrefs(KillSwapUsag
 DEFINE_GHOST_FILTER(KillSwapUsage__rankForKilling__lambda_filter, PRED_OF)
 #define DOC_BETTER(x, f) (PREF(x) > PREF(f) || (PREF(x) == PREF(f) && DOC_KEY(x) > DOC_KEY(f)))
 vec_CgroupContext KillSwapUsage__rankForKilling(KillSwapUsage *self, OomdContext *ctx, vec_CgroupContext cgroups)
-  __CPROVER_requires(self == g_self && cgroups.n <= VEC_MAX && !g_sorted && ghost_exc == 0)
+  __CPROVER_requires(self == g_self && cgroups.n <= VEC_MAX && ghost_exc == 0)
   __CPROVER_requires(g_plugin.threshold_ >= 0)     /* class invariant from init(): parseSizeOrPercent yields a non-negative threshold (C12) */
   __CPROVER_assigns(g_copied, g_sorted, g_copy_vid, g_copy_src)
   __CPROVER_ensures(__CPROVER_return_value.n <= cgroups.n && ghost_exc == 0)
@@ -98,6 +98,12 @@ int KillSwapUsage__init(KillSwapUsage *self, umap_str_t_str_t args, PluginConstr
 /* the registered parser: Util::parseSizeOrPercent(str, &res, base) or invalid_argument */
 int64_t g_parse_out; int g_parse_rc; int64_t g_parse_base;
 int Util__parseSizeOrPercent(str_t s, int64_t *res, int64_t base) { g_parse_base = base; if (g_parse_rc == 0) *res = g_parse_out; return g_parse_rc; }
+int64_t KillSwapUsage__init__lambda_addArgumentCustom(int64_t *swapTotal, str_t str)
+  __CPROVER_requires(__CPROVER_is_fresh(swapTotal, sizeof(*swapTotal)) && ghost_exc == 0)
+  __CPROVER_assigns(ghost_exc, g_parse_base)
+  /* size-or-percent of SwapTotal; anything unparsable is an invalid_argument (reported by the arg parser) */
+  __CPROVER_ensures(g_parse_base == *swapTotal && (g_parse_rc == 0 ? (ghost_exc == 0 && __CPROVER_return_value == g_parse_out) : ghost_exc == EXC_invalid_argument)) /*@C09*/;
+void h_thr(void) { int64_t *b; str_t s; HAVOC_SORT(); HAVOC(g_parse_out); HAVOC(g_parse_rc); HAVOC(g_parse_base); KillSwapUsage__init__lambda_addArgumentCustom(b, s); CANARY; }
 #define HAVOC_INIT() do { HAVOC(g_args_has_loc); HAVOC(g_mi_ok); HAVOC(g_mi_has_swap); HAVOC(g_mi_has_mem); HAVOC(g_reg_threshold); HAVOC(g_reg_biased); HAVOC(g_mi_swap); HAVOC(g_mi_mem); \
   HAVOC(g_thr_base); HAVOC(g_args_loc); HAVOC(g_mi_path); HAVOC(g_parse_out); HAVOC(g_parse_rc); HAVOC(g_parse_base); } while (0)
 void h_init(void) { PluginConstructionContext c; HAVOC_SORT(); HAVOC_INIT(); HAVOC(g_plugin); KillSwapUsage__init(g_self, ARGS, c); CANARY; }
